@@ -206,6 +206,13 @@ FAR_EDGES = [7200 - _E, 7200, 7200 + _E, 7200.5, 7200.5 + _E, 7205, 7209.5 - _E,
 REPS = ["tuple_float", "list_float", "ndarray_float64", "ndarray_int64", "tuple_int", "ndarray_float32", "numpy_scalars"]
 
 
+# intervals whose gap, overlap or distance from the threshold is 2^-30 (1e-9) or a 2^-8 part of a 1024-long interval: far below any
+# 'close enough' tolerance, still exact doubles ('at least the threshold' is an exact comparison)
+_N = 2.0 ** -30
+NEAR_PAIRS = [((1, 2), (2 + _N, 3)), ((1, 2), (2 - _N, 3)), ((1, 2), (2, 3)), ((1, 2 + _N), (2, 3)),
+              ((0, 20000), (0.125, 30000)), ((0, 20000), (0, 30000)), ((0, 1024), (2.0 ** -8, 2000)), ((0, 1024), (0, 2000)),
+              ((5, 5), (5 + _N, 6)), ((5, 5), (5, 6))]
+NEAR_ABS = [0.0, _N / 2, _N, 2 * _N, 1024.0, 20000.0]
 REP_A = [0, 1, 2, 3, 4]
 REP_B = [0, 0.5, 1, 1.5, 2, 2.5, 3, 3.5, 4]
 
@@ -263,6 +270,7 @@ def blocks(tier):
     ivs = [(a, b) for i, a in enumerate(lat) for b in lat[i:]]
     pairs = list(itertools.product(range(len(ivs)), repeat=2))
     out = [{"space": "intervals", "tier": tier, "pairs": c} for c in chunk(pairs, 16 if tier == "quick" else 64)]
+    out.append({"space": "near", "tier": tier})
     # representations: whole-number intervals in every representation against intervals on the half lattice as float tuples / arrays
     ra = [(a, b) for i, a in enumerate(REP_A) for b in REP_A[i:]]
     out += [{"space": "reps", "a": list(iv), "tier": tier} for iv in ra]
@@ -290,6 +298,9 @@ def run_block(block, rec):
             ra, rb = REPS[k % len(REPS)], REPS[(k // len(REPS)) % len(REPS)]
             if (ra, rb) != ("tuple_float", "tuple_float"):
                 rec.add(run_case(dict({"space": "intervals", "a": list(ivs[i]), "b": list(ivs[j]), "rep": [ra, rb]}, **tag)))
+    elif sp == "near":
+        for a, b in NEAR_PAIRS:
+            rec.add(run_case({"space": "intervals", "a": list(a), "b": list(b), "near": 1}))
     elif sp == "reps":
         for j, b0 in enumerate(REP_B):
             for b1 in REP_B[j:]:
@@ -324,7 +335,10 @@ def run_case(case):
                 out.klass = "representation_not_applicable"
                 return out
             cls = {"fn": "intervals_overlap", "rep": "+".join(sorted(set(case["rep"])))}
-        check_pair(out, intervals_overlap, xa, xb, a, b, thr(case, "abs"), thr(case, "rel"), "", cls)
+        if case.get("near"):
+            check_pair(out, intervals_overlap, xa, xb, a, b, NEAR_ABS, REL_T, "", dict(cls, near=True))
+        else:
+            check_pair(out, intervals_overlap, xa, xb, a, b, thr(case, "abs"), thr(case, "rel"), "", cls)
     elif sp == "geoms":
         g, h = case["g"], case["h"]
         G, H = mkgeom(g["type"], g["coordinates"]), mkgeom(h["type"], h["coordinates"])
